@@ -221,9 +221,10 @@ func unmarshal(node parse.Node, ti *typeInfo, fi *fieldInfo, v reflect.Value) er
 				return newUnmarshalError(node, ti, fi, "length mismatch")
 			}
 			val := node.(*parse.ValueNode)
-			s = val.Value[:fi.Opts.Length]
+			rest := s[fi.Opts.Length:]
+			s = s[:fi.Opts.Length]
 			defer func() {
-				val.Value = val.Value[fi.Opts.Length:]
+				val.Value = rest
 			}()
 		} else if len(s) != fi.Opts.Length {
 			return newUnmarshalError(node, ti, fi, "length mismatch")
